@@ -58,6 +58,31 @@ end Arr;
 """},
         "lib": {},
     },
+    "Mix": {
+        "model": {"Mix.mo": """model Mix
+  parameter Real q = {a};
+  parameter Integer n = {b};
+  parameter Boolean flag = true;
+  Real a(min = q, max = 5 * q, nominal = q * {c});
+  Real p(start = {d});
+  Real vp;
+  Real w(max = q * {b});
+  Integer cnt(start = n);
+  Boolean on;
+  input Real u(fixed = false);
+  output Real y;
+{EXTRA_DECL}equation
+  a = {c}.0;
+  der(p) = vp;
+  vp = -{d} * p + u;
+  w = -vp;
+  cnt = {a};
+  on = p > {b};
+  y = p + a * {d};
+{EXTRA_EQ}end Mix;
+"""},
+        "lib": {},
+    },
     "Del": {
         "model": {"Del.mo": """model Del
   parameter Real tau = {a};
@@ -140,6 +165,8 @@ OPTION_SETS = [
     {"replace_constant_values": True, "eliminate_constant_assignments": True},
     {"replace_parameter_expressions": True, "expand_vectors": True, "detect_aliases": True},
     {"resolve_parameter_values": True, "replace_parameter_values": True},
+    {"eliminate_constant_assignments": True},
+    {"detect_aliases": True, "eliminate_constant_assignments": True, "expand_vectors": True},
 ]
 
 
